@@ -145,6 +145,13 @@ OPS = [
     Op("stenciled2", 2, "v.stenciled(multi::iextension{a, a + w}, multi::iextension{c, c + u})", ["a", "w", "c", "u"],
        lambda v, a, c: vs.in_dim(vs.blocked(v, a["a"], a["w"]), 1, vs.blocked, a["c"], a["u"]), signs={"w": POS, "u": POS}, c01=False,
        needs_lvalue=True),
+    Op("stenciled3", 3, "v.stenciled(multi::iextension{a, a + w}, multi::iextension{c, c + u}, multi::iextension{e, e + t})", ["a", "w", "c", "u", "e", "t"],
+       lambda v, a, c: vs.in_dim(vs.in_dim(vs.blocked(v, a["a"], a["w"]), 1, vs.blocked, a["c"], a["u"]), 2, vs.blocked, a["e"], a["t"]),
+       signs={"w": POS, "u": POS, "t": POS}, c01=False, needs_lvalue=True),
+    Op("stenciled4", 4, "v.stenciled(multi::iextension{a, a + w}, multi::iextension{c, c + u}, multi::iextension{e, e + t}, multi::iextension{g, g + h})",
+       ["a", "w", "c", "u", "e", "t", "g", "h"],
+       lambda v, a, c: vs.in_dim(vs.in_dim(vs.in_dim(vs.blocked(v, a["a"], a["w"]), 1, vs.blocked, a["c"], a["u"]), 2, vs.blocked, a["e"], a["t"]), 3, vs.blocked, a["g"], a["h"]),
+       signs={"w": POS, "u": POS, "t": POS, "h": POS}, c01=False, needs_lvalue=True),
     Op("begin+m", 2, "*(v.begin() + m)", ["m"], lambda v, a, c: vs.index(v, v.dims[0].f + a["m"])),
 ]
 OPS_BY_NAME = {o.name: o for o in OPS}
@@ -154,6 +161,40 @@ OBS = ["first", "size", "stride", "raw.stride", "raw.offset", "raw.nelems"]
 
 def fname(op, D, zb):
     return "f_%s_D%d" % (re.sub(r"[^A-Za-z0-9]", "_", op.name), D)
+
+
+def variants(ops_ds, wd, tag):
+    """The same operations applied to the view as an rvalue (std::move(v)) and as a const lvalue (std::as_const(v)): same specification.  Only the
+    forms that compile are returned (a front-end probe, one candidate per line; forms that do not exist for a value category are not obligations)."""
+    import copy
+    from . import witness
+    cands = []
+    for op, D in ops_ds:
+        if len(re.findall(r"\bv\b", op.expr)) != 1:
+            continue
+        for suffix, repl in (("&&", "std::move(v)"), ("const&", "std::as_const(v)")):
+            o2 = copy.copy(op)
+            o2.name = op.name + suffix
+            o2.expr = re.sub(r"\bv\b", repl, op.expr)
+            cands.append((o2, D))
+    lines = ["#include <boost/multi/array.hpp>", "#include <utility>", "namespace multi = boost::multi;"]
+    index = {}
+    for k, (op, D) in enumerate(cands):
+        oargs = "".join(", long %s" % a for a in op.args)
+        lines.append("void probe_%d(multi::subarray<double, %d>& v%s) { auto&& r = %s; (void)r; }" % (k, D, oargs, op.expr))
+        index[len(lines)] = k
+    tu = os.path.join(wd, "probe_%s.cpp" % tag)
+    with open(tu, "w") as fh:
+        fh.write("\n".join(lines) + "\n")
+    rc, diags, raw = witness.compile_tu(tu)
+    bad = set()
+    for e, notes in witness.group_errors(diags):
+        line = witness.attribute(e, notes, tu)
+        if line in index:
+            bad.add(index[line])
+        else:
+            raise common.AnalysisBroken("value-category probe: error outside the candidate lines: " + e["msg"][:200])
+    return [c for k, c in enumerate(cands) if k not in bad], len(bad)
 
 
 def gen_driver(wd, ops_ds, tag):
